@@ -323,6 +323,8 @@ class ModuleEnv:
                 return VInt(a.length)
             if isinstance(a, VRec) and 'labels' in a.fields:      # abstract index: len = number of labels
                 return VInt(a.fields['labels'].length)
+            if isinstance(a, VRec) and '_len' in a.fields:
+                return a.fields['_len']
             if isinstance(a, VRec) and a.name == 'arr':
                 if not st.spec:
                     eng.oblige(st, a.fields['ndim'].t >= 1, f'no-TypeError-len-0d@L{node.lineno}', 'safety', node)
@@ -629,11 +631,11 @@ class ModuleEnv:
             return VBool(False)
         if name == 'implies':
             p = eng.ev_cond(a[0], st)
-            st.pc.append(p)
+            tok = eng.push_guard(st, p)
             try:
                 q = eng.ev_cond(a[1], st)
             finally:
-                st.pc.pop()
+                eng.pop_guards(st, [tok])
             return VBool(z3.Implies(p, q))
         if name == 'iff':
             return VBool(eng.ev_cond(a[0], st) == eng.ev_cond(a[1], st))
@@ -662,11 +664,11 @@ class ModuleEnv:
             saved = dict(st.env)
             st.env[names[0]] = VInt(v)
             rng = z3.And(lo <= v, v < hi)
-            st.pc.append(rng)
+            tok = eng.push_guard(st, rng)
             try:
                 body = eng.ev_cond(lam.body, st)
             finally:
-                st.pc.pop()
+                del st.pc[tok[0]:]        # inside a binder: facts mentioning the bound variable must not escape
                 st.env = saved
             if name == 'forall_in':
                 return VBool(z3.ForAll([v], z3.Implies(rng, body)))
